@@ -88,7 +88,7 @@ pub fn check_tx(world: &World, sc: &Scenario, i: usize, spec: &ScriptSpec, o: &O
         for inp in fuel_tx::field::Inputs::inputs(&orig).iter() {
             match inp {
                 Input::CoinSigned(c) => *free.entry(c.asset_id).or_default() += c.amount as u128,
-                Input::MessageCoinSigned(m) => *free.entry(AssetId::BASE).or_default() += m.amount as u128,
+                Input::MessageCoinSigned(m) => *free.entry(base_asset()).or_default() += m.amount as u128,
                 _ => {}
             }
         }
@@ -102,7 +102,7 @@ pub fn check_tx(world: &World, sc: &Scenario, i: usize, spec: &ScriptSpec, o: &O
         let min_gas = orig.min_gas(params.gas_costs(), params.fee_params()) as u128;
         let factor = params.fee_params().gas_price_factor() as u128;
         let fee = ((min_gas + gas_used as u128) * sc.gas_price as u128).div_ceil(factor.max(1)) + spec.tip as u128;
-        let base_left = free.get(&AssetId::BASE).copied().unwrap_or(0);
+        let base_left = free.get(&base_asset()).copied().unwrap_or(0);
         for (k, out) in tx.outputs().iter().enumerate() {
             match out {
                 Output::Variable { to, amount, asset_id } => {
@@ -116,7 +116,7 @@ pub fn check_tx(world: &World, sc: &Scenario, i: usize, spec: &ScriptSpec, o: &O
                     }
                 }
                 Output::Change { amount, asset_id, .. } => {
-                    let want = if *asset_id == AssetId::BASE {
+                    let want = if *asset_id == base_asset() {
                         // inputs − coin outputs − fee actually charged  (= initial free balance + refund)
                         base_left.saturating_sub(fee)
                     } else {
@@ -126,7 +126,7 @@ pub fn check_tx(world: &World, sc: &Scenario, i: usize, spec: &ScriptSpec, o: &O
                         return ctx.violate(
                             "outputs-after-revert",
                             "outputs-after-revert:change",
-                            format!("tx {i}: result {result:?}: change output {k} holds {amount}, expected initial free balance{} = {want}", if *asset_id == AssetId::BASE { " plus refund" } else { "" }),
+                            format!("tx {i}: result {result:?}: change output {k} holds {amount}, expected initial free balance{} = {want}", if *asset_id == base_asset() { " plus refund" } else { "" }),
                         );
                     }
                 }
